@@ -66,9 +66,13 @@ PROPS = {
         'level_text': 'Multipart limits exactly at their thresholds (buffered part size: raises iff content > max, on every call; part count: loop invariant '
                       'remaining == max - parts yielded, 0 = unlimited; header block read with the configured cap), error mapping (only MultipartParseError leaves '
                       'iteration: DelimiterError always translated), header filtering (allowed content headers only, lower-cased; Content-Transfer-Encoding other '
-                      'than binary rejected), boundary extraction and the 1..70 rule; sync and async twins.',
+                      'than binary rejected), boundary extraction and the 1..70 rule; each part owns its header mapping; BodyPart accessors (content_type, name, filename incl. the '
+                      'RFC 5987 branch, secure_filename, get_text, get_media): values as functions of the kept header bytes and of the callee contracts, memoisation '
+                      '(parsed / deserialized once), stream exhausted exactly once when the handler asks for it also on failure, and only MultipartParseError (or the '
+                      'media handler\'s own error) escapes for arbitrary header bytes; sync and async twins.',
         'level_note': 'Proved over the flat-cursor contract of the buffered reader (C14) as stubs. NOT decided: "parse(encode(parts)) == parts for every body, '
-                      'chunking and consumption pattern" and BodyPart name/filename/text/media accessors -- stated in not_decided.',
+                      'chunking and consumption pattern" (that name / filename / content EQUAL what a reference encoder wrote); parse_header, the RFC 5987 regex, '
+                      'unquote_to_bytes, secure_filename and the codecs are callee contracts -- stated in not_decided.',
     },
     'C09': {
         'modules': ['contracts.C09_request_headers'],
